@@ -33,6 +33,10 @@ type Pipe struct {
 	// split in two fragments / the next Read takes exactly this many fragments
 	ForceSplit bool
 	ForceMax   int
+	// PostGate adds a gate "t.<name>.write.post" between the moment the reader has taken a written message and the
+	// return of the Write call: a write that "returns late" - the peer acts on the message while the writer has not
+	// yet run on (opt-in: replayed schedules do not know this gate)
+	PostGate bool
 
 	mu      sync.Mutex
 	cond    *sync.Cond
@@ -101,6 +105,11 @@ func (p *Pipe) Write(b []byte) (int, error) {
 			p.S.Emit(g, "t."+p.Name+".wfail", map[string]any{})
 		}
 		return 0, io.ErrClosedPipe
+	}
+	if p.PostGate && p.S != nil {
+		p.mu.Unlock()
+		p.S.Gate(g, "t."+p.Name+".write.post")
+		p.mu.Lock()
 	}
 	return len(b), nil
 }
